@@ -11,7 +11,7 @@ SIM = "real anemo Networks on an in-memory datagram fabric under tokio's virtual
 CHECKS = {
  "C01": ("exploration",
    "runtime monitor: forged-certificate corpus through the real verifiers + adversary endpoint vs. ground-truth address registry",
-   "Verifier level: replayed, re-signed, key-planted (the other party's complete SubjectPublicKeyInfo byte for byte in serial number, a name attribute and an extension), expired, CA, ECDSA, truncated, garbage and every-offset single-byte-mutated certificates through the three real verifiers with handshake signatures by both keys; oracle: accepted certificate AND accepted signature by key K implies attributed PeerId = pub(K). End to end: an adversary endpoint holding only key Y dials / is dialed by real Networks with ten hostile identities while honest RPCs carry other parties' ids in every encoding; every PeerId attributed in handlers, responses, events and dial results must equal the ground-truth owner of the remote fabric address.",
+   "Verifier level: replayed, re-signed, key-planted (the other party's complete SubjectPublicKeyInfo byte for byte in serial number, a name attribute and an extension), expired, CA, ECDSA, truncated, garbage and every-offset single-byte-mutated certificates through the three real verifiers with handshake signatures by both keys; oracle: accepted certificate AND accepted signature by key K implies attributed PeerId = pub(K). End to end: an adversary endpoint holding only key Y dials / is dialed by real Networks with ten hostile identities while honest RPCs carry other parties' ids in every encoding; every PeerId attributed in handlers, responses, events and dial results must equal the ground-truth owner of the remote fabric address. One scenario in three re-uses an ip:port for a second honest identity after the first has shut down (ground truth by instant).",
    "Ed25519/TLS1.3 strength assumed; adversary limited to rustls' public traits + DER splicing (no malformed TLS records).",
    "DESIGN.md §4 C01", "E1 simnet + E3 component"),
  "C02": ("exploration",
